@@ -79,6 +79,11 @@ func NewMsgCreateValidator
             && result.0.Description.Moniker == dyn(args[0], DescriptionT).Moniker && result.0.Description.Details == dyn(args[0], DescriptionT).Details
     ensures who: result.2 == nil ==> result.1 == dyn(args[3], Address) && result.1 != zero_EvmAddr
     ensures refused: result.2 != nil ==> result.0 == nil
+    // every remaining description field and the three commission rates (18-decimal values of the ABI integers), each from its own input
+    ensures description: result.2 == nil ==> result.0.Description.Identity == dyn(args[0], DescriptionT).Identity && result.0.Description.Website == dyn(args[0], DescriptionT).Website
+            && result.0.Description.SecurityContact == dyn(args[0], DescriptionT).SecurityContact
+    ensures commission: result.2 == nil ==> result.0.Commission.Rate == *dyn(args[1], CommissionT).Rate && result.0.Commission.MaxRate == *dyn(args[1], CommissionT).MaxRate
+            && result.0.Commission.MaxChangeRate == *dyn(args[1], CommissionT).MaxChangeRate
 
 // ------------------------------------------------------------------ C04: grant bookkeeping (S3)
 alias SDB github.com/haqq-network/haqq/x/evm/statedb.StateDB
